@@ -9,6 +9,7 @@ import (
 	"path/filepath"
 	"runtime/debug"
 	"strings"
+	"sync"
 	"testing"
 	"time"
 
@@ -566,6 +567,7 @@ func TestC19(t *testing.T) {
 		"user keys are <= 2 bytes and can never collide with the >= 9-byte internal element keys; 6 % of the hash values and list elements are empty: the reply of a read is then the same as for an absent element, the new/existing flags, sizes and pop order are not")
 	defer finishProperty(st)
 	c19AliasProbe(t, st)
+	c19ExpiryRaceProbe(t, st)
 	checkCases(t, st, func(t *rapid.T) { c19Run(t, st) })
 }
 
@@ -734,4 +736,72 @@ func init() {
 		}
 		return nil
 	}
+}
+
+// c19ExpiryRaceProbe owns one schedule of two clients that the sequential command histories cannot produce: a
+// string has expired; one client reads it while another re-acquires it ("lease refreshed right at expiry"). The
+// refresher's Set is placed inside the reader's Get, after the engine has looked the key up (hook get.indexed). The
+// Set is acknowledged last, so from then on the key holds the fresh value - live and after a restart.
+func c19ExpiryRaceProbe(t fataler, st *kvh.Stats) {
+	if !kvh.GetEnv().Mine(0) {
+		return
+	}
+	for round, ttl := range []time.Duration{-time.Hour, c19ShortTTL, -time.Nanosecond} {
+		opt := kvh.DefaultOpt()
+		opt.Index = int8(1 + round%3)
+		cs := map[string]string{"property": "C19", "kind": "probe-c19-expiry-race", "note": "fixed schedule, see c19ExpiryRaceProbe"}
+		r, f := newRedisRunner(opt)
+		if f != nil {
+			report(t, st, cs, f)
+			return
+		}
+		key, fresh := []byte("lease"), []byte("fresh-holder")
+		var got []string
+		err := r.dts.Set(key, []byte("old-holder"), ttl)
+		got = append(got, fmt.Sprintf("Set(lease, old-holder, %v)=%v", ttl, err))
+		if ttl > 0 {
+			time.Sleep(ttl + 15*time.Millisecond)
+		}
+		var once sync.Once
+		var serr error
+		gIO.SetOnPoint(func(name string, k []byte) {
+			if name == "get.indexed" && string(k) == string(key) {
+				once.Do(func() { serr = r.dts.Set(key, fresh, time.Hour) })
+			}
+		})
+		v1, err1 := r.dts.Get(key)
+		gIO.SetOnPoint(nil)
+		got = append(got, fmt.Sprintf("Get(lease) with Set(lease, fresh-holder, 1h)=%v acknowledged inside it = (%q, %v)", serr, v1, err1))
+		v2, err2 := r.dts.Get(key)
+		got = append(got, fmt.Sprintf("Get(lease) = (%q, %v)", v2, err2))
+		bad := serr != nil || err2 != nil || string(v2) != string(fresh)
+		if !bad {
+			if cerr := r.dts.Close(); cerr != nil {
+				bad = true
+				got = append(got, fmt.Sprintf("Close=%v", cerr))
+			}
+			r.dts = nil
+			if dts, oerr := datatype.NewDataTypeService(opt.KV(r.dir)); oerr != nil {
+				bad = true
+				got = append(got, fmt.Sprintf("reopen=%v", oerr))
+			} else {
+				r.dts = dts
+				v3, err3 := r.dts.Get(key)
+				got = append(got, fmt.Sprintf("after restart Get(lease) = (%q, %v)", v3, err3))
+				bad = bad || err3 != nil || string(v3) != string(fresh)
+			}
+		}
+		r.cleanup()
+		st.Eval(1)
+		st.Label("expired-string-re-set-inside-a-get-of-another-client")
+		st.NonTrivial(kvh.Hash64([]byte(fmt.Sprintf("c19expiry|%d", round))))
+		if bad {
+			report(t, st, cs, &kvh.Fail{Sig: "acknowledged-set-lost-to-expiry", Msg: "a Set acknowledged while another client's Get of the expired key was in flight is gone: " + strings.Join(got, "; ")})
+			return
+		}
+	}
+}
+
+func init() {
+	replayers["probe-c19-expiry-race"] = func(_ *kvh.Case, _ []byte) *kvh.Fail { return replayProbe(c19ExpiryRaceProbe, "C19") }
 }
